@@ -27,6 +27,28 @@ _CURRENT_SIM = None  # the Sim whose get() is active in this process (one at a t
 _OPFLAG = False
 
 
+def _switch_capable_opcodes():
+    """Opcodes after which CPython 3.12 can hand the GIL to another thread: the eval-breaker checks (calls, RESUME,
+    JUMP_BACKWARD) and every instruction that may run code outside the eval loop (operators on arrays release the GIL,
+    attribute loads may run descriptors, iteration, imports, with-blocks, returns into a caller's call site).
+    Plain loads/stores of locals, constants, globals and instance attributes, stack shuffles, tuple building and forward
+    jumps are not: two adjacent `self.a = x; self.b = y` stores cannot be separated by a thread switch."""
+    import dis
+
+    names = set()
+    for nm in dis.opmap:
+        if nm.startswith(("CALL", "BINARY_", "UNARY_", "COMPARE_", "CONTAINS_", "IMPORT_", "RETURN_", "UNPACK_", "YIELD_", "FOR_ITER", "GET_",
+                          "LOAD_ATTR", "LOAD_SUPER_ATTR", "LOAD_METHOD", "LOAD_NAME", "DELETE_SUBSCR", "DELETE_ATTR", "STORE_SUBSCR", "STORE_SLICE",
+                          "LIST_EXTEND", "SET_UPDATE", "DICT_UPDATE", "DICT_MERGE", "FORMAT_", "BEFORE_", "WITH_", "SEND", "RESUME", "JUMP_BACKWARD",
+                          "INSTRUMENTED_", "END_SEND", "CLEANUP_THROW", "RAISE_", "RERAISE", "CHECK_", "MATCH_", "LOAD_BUILD_CLASS", "SETUP_ANNOTATIONS")):
+            names.add(nm)
+    names.discard("JUMP_BACKWARD_NO_INTERRUPT")
+    return frozenset(dis.opmap[n] for n in names)
+
+
+_SWITCH_CAPABLE = _switch_capable_opcodes()
+
+
 class SimDeadlock(RuntimeError):
     pass
 
@@ -228,6 +250,8 @@ class Worker:
         self.site = None
         self.ghost_of = None
         self.key = None
+        self.pending = False
+        self.prev_op = None
         self.thread = threading.Thread(target=self._main, name=f"simw-{idx}", daemon=True)
         self.thread.start()
 
@@ -296,6 +320,7 @@ class Sim:
         self.hot_boost = hot_boost
         self._last_hot = None
         self._hot_left = {}
+        self._decide_op = {}
         self.script_preempts = set(map(tuple, preempts or ()))
         self.script_choices = [tuple(c) for c in (choices or ())]
         self.choice_i = 0
@@ -331,7 +356,7 @@ class Sim:
         self._pct_change = []
         if policy == "pct" and mode == "prng":
             self._pct_change = sorted(self.rng.randrange(1, pct_horizon) for _ in range(max(0, pct_d - 1)))
-        if self.granularity.startswith("opcode"):
+        if self.granularity != "task":
             enable_opcode_flag_once()
 
     # ---------------- tracing ----------------
@@ -341,46 +366,63 @@ class Sim:
         code = frame.f_code
         if not code.co_filename.startswith(ACRYO_PREFIX):
             return None
-        g = self.granularity
-        if g == "opcode-all":
-            frame.f_trace_opcodes = True
-        elif g == "opcode-some":
-            h = (hash_str(code.co_filename[len(ACRYO_PREFIX):] + ":" + code.co_name) ^ self.opcode_salt) % 10
-            if h < 4 or code.co_filename in HOT_LINES:
-                frame.f_trace_opcodes = True
+        # opcode events are always on inside acryo frames: a pre-emption that has been *decided* is *taken* at the next
+        # boundary at which CPython can really switch threads (see _SWITCH_CAPABLE); the granularity only says where
+        # pre-emptions may be decided
+        frame.f_trace_opcodes = True
+        if code not in self._decide_op:
+            g = self.granularity
+            if g == "opcode-all":
+                d = True
+            elif g == "opcode-some":
+                h = (hash_str(code.co_filename[len(ACRYO_PREFIX):] + ":" + code.co_name) ^ self.opcode_salt) % 10
+                d = h < 4 or code.co_filename in HOT_LINES
+            else:
+                d = False
+            self._decide_op[code] = d
         return self._local_trace
 
     def _local_trace(self, frame, event, arg):
-        if event == "line" or event == "opcode":
+        is_op = event == "opcode"
+        if is_op or event == "line":
             w = self.current
             if w is not None and w.thread.ident == threading.get_ident():
                 self.stats["events"] += 1
                 w.k += 1
+                code = frame.f_code
+                prev = w.prev_op
+                if is_op:
+                    w.prev_op = code.co_code[frame.f_lasti]
                 if self.mode == "trace":
                     do = (w.get_no, w.task_ord, w.k) in self.script_preempts
                 else:
-                    p = self.preempt_p
-                    if p > 0 and self.hot_boost:
-                        hl = HOT_LINES.get(frame.f_code.co_filename)
-                        if hl is not None:
-                            # at a statement that writes shared state, and for the next few events of the same task
-                            # (the window in which a half-finished update is visible to other tasks)
-                            if frame.f_lineno in hl:
-                                self._hot_left[w.idx] = 8
-                            left = self._hot_left.get(w.idx, 0)
-                            if left > 0:
-                                self._hot_left[w.idx] = left - 1
-                                p = max(p, self.hot_boost)
-                                self.stats["hot_events"] += 1
-                    do = p > 0 and self.rng.random() < p
-                    if not do and self.policy == "pct" and self._pct_change and self.stats["events"] >= self._pct_change[0]:
-                        # PCT priority change point: demote the running worker and yield
-                        self._pct_change.pop(0)
-                        self._pct_prio[w.idx] = -len(self._pct_change) - 1
-                        do = True
+                    if not is_op or self._decide_op.get(code, False):
+                        p = self.preempt_p
+                        if p > 0 and self.hot_boost:
+                            hl = HOT_LINES.get(code.co_filename)
+                            if hl is not None:
+                                # at a statement that writes shared state, and for the next few decision points of the same
+                                # task (the window in which a half-finished update is visible to other tasks)
+                                if frame.f_lineno in hl:
+                                    self._hot_left[w.idx] = 8
+                                left = self._hot_left.get(w.idx, 0)
+                                if left > 0:
+                                    self._hot_left[w.idx] = left - 1
+                                    p = max(p, self.hot_boost)
+                                    self.stats["hot_events"] += 1
+                        if p > 0 and self.rng.random() < p:
+                            w.pending = True
+                        if self.policy == "pct" and self._pct_change and self.stats["events"] >= self._pct_change[0]:
+                            # PCT priority change point: demote the running worker and yield
+                            self._pct_change.pop(0)
+                            self._pct_prio[w.idx] = -len(self._pct_change) - 1
+                            w.pending = True
+                    # take a decided pre-emption only where the interpreter can switch: right after an instruction
+                    # that can call out of the eval loop (calls, returns, loops, operators, attribute loads, iteration)
+                    do = w.pending and is_op and (prev is None or prev in _SWITCH_CAPABLE)
                 if do:
-                    code = frame.f_code
-                    site = (code.co_name, frame.f_lineno, frame.f_lasti if event == "opcode" else -1)
+                    w.pending = False
+                    site = (code.co_name, frame.f_lineno, frame.f_lasti if is_op else -1)
                     w.site = site
                     self.sites.add(site)
                     self.rec_preempts.append((w.get_no, w.task_ord, w.k))
@@ -509,6 +551,8 @@ class Sim:
                 w.task_ord = order[k] if kind == "start" else order[k] + ntotal
                 w.get_no = gno
                 w.k = 0
+                w.pending = False
+                w.prev_op = None
                 w.site = None
                 w.state = "running"
                 running[w] = k
